@@ -897,3 +897,34 @@ Qed.
 
 Lemma fits_nil ksn : fits ksn [].
 Proof. split; [constructor|intros x []]. Qed.
+
+(* ------------------------------------------------------------ Redis: polite clients meet no hazard *)
+
+Lemma filter_all_false {A} (f : A -> bool) l : (forall x, In x l -> f x = false) -> filter f l = [].
+Proof.
+  induction l as [|a r IH]; intros H; cbn; auto.
+  rewrite (H a) by (cbn; auto). apply IH. intros x Hx. apply H. cbn. auto.
+Qed.
+
+Lemma heldb_not_foreign t now k o : heldb t now k o = true -> foreign_live now o k t = None.
+Proof.
+  intros H. destruct (heldb_lookup _ _ _ _ H) as [e [Hl He]].
+  unfold foreign_live. rewrite (live_of_lookup _ _ _ _ _ Hl He). rewrite N.eqb_refl. auto.
+Qed.
+
+Lemma polite_no_hazard s b p :
+  inv (rd_tbl s) (rd_now s) b -> polite_op s b p = true -> rd_hazard s p = [].
+Proof.
+  intros Hi Hp. destruct p as [o d ks|o d ks|o ks|o d ks|ks|o ks|n]; cbn [rd_hazard]; auto;
+    cbn [polite_op] in Hp; rewrite forallb_forall in Hp; apply filter_all_false; intros k Hk;
+    rewrite (heldb_not_foreign _ _ _ _ (inv_believer_held _ _ _ _ _ Hi (Hp k Hk))); auto.
+Qed.
+
+Lemma rd_polite_no_hazard : forall ops s b,
+  inv (rd_tbl s) (rd_now s) b -> rd_polite ops s b = true -> snd (rd_run ops s b) = [].
+Proof.
+  induction ops as [|p r IH]; intros s b Hi Hp; cbn [rd_run rd_polite] in *; auto.
+  apply andb_true_iff in Hp. destruct Hp as [Hp1 Hp2]. cbn [fst snd].
+  pose proof (polite_no_hazard s b p Hi Hp1) as Hh. rewrite Hh. cbn [app].
+  apply IH; auto. apply rd_step_inv; auto.
+Qed.
